@@ -1,4 +1,5 @@
 import ConserveModel.Driver.StoreIO
+import ConserveModel.Conc
 /-
 Stateful part of the driver: a current abstract store and source listing, and requests
 that run the model's programs on them.
@@ -10,6 +11,8 @@ structure DState where
   store : Store := []
   src : List SrcEntry := []
   enforce : Bool := true
+  /-- saved source listings, for actors with differing sources -/
+  slots : List (Nat × List SrcEntry) := []
   deriving Inhabited
 
 def parseCrash (s : String) : Option (Option Nat) :=
@@ -45,8 +48,51 @@ def parseSel (s : String) : Option BandSelection :=
   else if s = "latest" then some .latest
   else (parseBandName s).map .specified
 
+/-- An actor of a schedule: `backup:<me>:<mb>:<sc>:<slot>` or `delete:<dry>:<strict>:<b,b,…|->`. -/
+inductive ActorSpec
+  | backup (o : BackupOpts) (slot : Nat)
+  | delete (dry strict : Bool) (bands : List Nat)
+
+def parseActor (s : String) : Option ActorSpec :=
+  match s.splitOn ":" with
+  | ["backup", me, mb, sc, slot] => do
+    pure (.backup { maxEntriesPerHunk := ← me.toNat?, maxBlockSize := ← mb.toNat?, smallFileCap := ← sc.toNat? } (← slot.toNat?))
+  | ["delete", dry, strict, bands] => do
+    let bs ← if bands = "-" then some [] else (bands.splitOn ",").mapM parseBandName
+    pure (.delete (dry == "1") (strict == "1") bs)
+  | _ => none
+
+/-- Both kinds of actor as programs returning a printable result. -/
+def actorProg (st : DState) : ActorSpec → Prog String
+  | .backup o slot => do
+    archiveOpen
+    let stats ← backup blake2bHex o ((st.slots.lookup slot).getD [])
+    pure (showStats stats)
+  | .delete dry strict bands => do
+    archiveOpen
+    let stats ← deleteBands strict bands { dryRun := dry }
+    pure (showDeleteStats stats)
+
+def showActor (tag : String) (a : Actor String) : List String :=
+  a.trace.reverse.map (fun ev => tag ++ " " ++ showTraceEv ev) ++
+  a.events.reverse.map (fun ev => tag ++ " " ++ showEvent ev) ++
+  [tag ++ " " ++ (match a.outcome with
+    | some o => showOutcome id o
+    | none => "result unfinished")]
+
 def step (st : DState) (toks : List String) : Option (DState × List String) :=
   match toks with
+  | ["src-save", n] =>
+    match n.toNat? with
+    | some n => some ({ st with slots := (n, st.src) :: st.slots.filter (·.1 != n) }, [])
+    | none => some (st, ["bad-op"])
+  | ["sched", sched, a, b] =>
+    match parseActor a, parseActor b with
+    | some a, some b =>
+      let schedule := sched.toList.filterMap fun c => if c == '0' then some false else if c == '1' then some true else none
+      let (s', a', b') := runSched st.enforce schedule st.store (Actor.start (actorProg st a)) (Actor.start (actorProg st b))
+      some ({ st with store := s' }, showActor "A" a' ++ showActor "B" b')
+    | _, _ => some (st, ["bad-op"])
   | ["store-clear"] => some ({ st with store := [] }, [])
   | ["src-clear"] => some ({ st with src := [] }, [])
   | ["enforce", b] => some ({ st with enforce := b == "1" }, [])
